@@ -79,6 +79,31 @@ Definition c10_model_ok (limit : nat) (r : c10_run) : bool :=
 Definition c10_model_mismatches (limit : nat) (rs : list c10_run) : list nat :=
   indices_where (fun r => negb (c10_model_ok limit r)) rs.
 
+(* V: what C10_one_write_per_packet states, evaluated on the logged Transport.Write calls (full
+   bytes of every call): each call carries exactly one whole packet, and the calls are exactly the
+   expected packets. A PUBLISH sent as header-Write then payload-Write fails here on every run,
+   whether or not another writer happened to get in between. *)
+Definition c10_calls_ok (r : c10_run) : bool :=
+  let '(_, calls, expected) := r in
+  match frames (concat expected) with
+  | Some es =>
+      forallb (fun c => match frames c with Some [_] => true | _ => false end) calls &&
+      match frames (concat calls) with Some cs => ms_eqb cs es | None => false end
+  | None => false
+  end.
+Definition c10_call_violations (rs : list c10_run) : list nat := indices_where (fun r => negb (c10_calls_ok r)) rs.
+
+(* large packets cross the boundary run-length encoded (payloads are constant fills) *)
+Definition rle := list (N * N).
+Definition unrle (l : rle) : list N := flat_map (fun bn => N.iter (snd bn) (cons (fst bn)) []) l.
+Definition c10_big_run := (list rle * list rle * list rle)%type.
+Definition c10_unbig (r : c10_big_run) : c10_run :=
+  let '(e, c, x) := r in (map unrle e, map unrle c, map unrle x).
+Definition c10_big_wire_violations (rs : list c10_big_run) : list nat :=
+  indices_where (fun r => negb (c10_wire_ok (c10_unbig r))) rs.
+Definition c10_big_call_violations (rs : list c10_big_run) : list nat :=
+  indices_where (fun r => negb (c10_calls_ok (c10_unbig r))) rs.
+
 (* overlap probes: a writer is held inside Transport.Write while another packet becomes due;
    observed: the largest number of goroutines inside Write at the same time, and the wire *)
 Definition c10_probe := (nat * c10_run)%type.
